@@ -17,6 +17,16 @@ def cPlus : Nat := 0x2B
 def cHash : Nat := 0x23
 def cSlash : Nat := 0x2F
 
+/-- `plen > 1 && p[1] != '/'` -/
+def headNotSlash : Bytes → Bool
+  | b :: _ => b != cSlash
+  | [] => false
+
+/-- `isSetPrevByte && prevByte != '/'` -/
+def prevNotSlash : Option Nat → Bool
+  | some pb => pb != cSlash
+  | none => false
+
 /-- the `for len(p) > 0` loop of `ValidTopicName(mustUTF8, p)` -/
 def validTopicNameLoop (must : Bool) : Bytes → Bool
   | [] => true
@@ -38,8 +48,8 @@ def validTopicFilterLoop (must : Bool) : Bytes → Option Nat → Bool
     let rs := decodeRune (p0 :: tl)
     if must && badRune rs.1 rs.2 then false
     else if p0 = cHash && !tl.isEmpty then false
-    else if rs.2 = 1 && (p0 = cPlus || p0 = cHash) && (match prev with | some pb => pb != cSlash | none => false) then false
-    else if rs.2 = 1 && p0 = cPlus && (match tl with | b :: _ => b != cSlash | [] => false) then false
+    else if rs.2 = 1 && (p0 = cPlus || p0 = cHash) && prevNotSlash prev then false
+    else if rs.2 = 1 && p0 = cPlus && headNotSlash tl then false
     else validTopicFilterLoop must (tl.drop (rs.2 - 1)) (some p0)
 termination_by p => p.length
 decreasing_by simp [List.length_drop]; omega
@@ -94,10 +104,8 @@ def validTopicFilterLoop (must : Bool) : Bytes → Option Nat → Bool
     let rs := decodeRune (p0 :: tl)
     if must && badRune rs.1 rs.2 then false
     else if p0 = cHash && !tl.isEmpty then false
-    else if rs.2 = 1 && (match prev with
-        | some pb => ((p0 = cPlus || p0 = cHash) && pb != cSlash)
-                     || (p0 = cPlus && (match tl with | b :: _ => b != cSlash | [] => false))
-        | none => false) then false
+    else if rs.2 = 1 && prev.isSome && (((p0 = cPlus || p0 = cHash) && prevNotSlash prev)
+                                         || (p0 = cPlus && headNotSlash tl)) then false
     else validTopicFilterLoop must (tl.drop (rs.2 - 1)) (some p0)
 termination_by p => p.length
 decreasing_by simp [List.length_drop]; omega
